@@ -287,6 +287,19 @@ impl Check for C08 {
             class_depth: if thorough { 4 } else { 3 },
             ..GenParams::for_tier(thorough)
         };
+        if d.chance(26) {
+            // top-level literals that a lossy registry key would confuse: same low byte, same low
+            // 16 bits, neighbours, the same character in another escape form
+            let c0 = gen::gen_any_char(d);
+            let mut rxs = vec![Rx::Lit(c0, LitForm::UBrace)];
+            for _ in 0..1 + d.below(2) {
+                let delta = *d.pick(&[256i64, 512, 65_536, 1, -1, -256, 0x100 * 77, 0]);
+                let c1 = char::from_u32((c0 as i64 + delta).clamp(0, 0x10FFFF) as u32).unwrap_or(c0);
+                let form = if delta == 0 { LitForm::HexBrace } else { LitForm::UBrace };
+                rxs.push(Rx::Lit(c1, form));
+            }
+            return multi(rxs);
+        }
         let first = if d.chance(40) {
             gen::gen_class(d, &p)
         } else {
